@@ -12,7 +12,7 @@ func Try(f func() Val) (v Val) {
 	return f()
 }
 
-func Ok(vs ...Val) Val { return L(append([]Val{A("ok")}, vs...)...) }
+func Ok(vs ...Val) Val      { return L(append([]Val{A("ok")}, vs...)...) }
 func ErrV(class string) Val { return L(A("err"), A(class)) }
 
 // Exact returns a copy whose capacity equals its length, so that Go's
